@@ -1,8 +1,12 @@
-"""Witness search for a failed obligation (K3 / replay driver).  Returns a dict or None."""
+"""Witness search for a failed obligation.  Returns a dict or None.
+
+Sources of concrete counterexamples: Kani concrete playback (values of kani::any() in order) and xrun (the case id of the small-scope
+enumeration, re-executable against the real code with `xrun <suite> --only <case>`).  A Verus failure alone yields no input."""
 
 
 def search(prop, label, errs, scratch):
     for e, backend in errs:
         if e.get('witness'):
-            return {'source': 'kani concrete playback', 'values': e['witness'], 'confirmed': True}
+            src = 'xrun case (real code executed on this input)' if backend == 'xrun' else 'kani concrete playback'
+            return {'source': src, 'values': e['witness'], 'confirmed': True}
     return None
